@@ -78,7 +78,7 @@ def mask_pair(draw):
         "dtype": draw(st.sampled_from(["bool", "uint8", "int64", "uint16"])),
         "layout": draw(st.sampled_from(gen.LAYOUTS)),
         "pads": pads,
-        "label": draw(st.sampled_from([None, None, 1, 3, 200])),
+        "label": draw(st.sampled_from([None, None, 1, 3, 200, 200001])),
     }
 
 
@@ -192,6 +192,10 @@ def _assd(ref, pred, label=None):
     if len(free):
         ref2[tuple(free[0])] = l2
         pred2[tuple(free[-1])] = label
+    if pred2.dtype == np.uint8:
+        # the two arrays need not share a dtype: a 16-bit prediction whose labels do not fit the reference's 8 bit
+        pred2 = np.where(pred2 == l2, l2 + 256, pred2.astype(np.uint16)).astype(np.uint16)
+        l2 = l2 + 256
     direct2 = float(H.lib_call(pm._compute_instance_average_symmetric_surface_distance, ref2, pred2, label, l2))
     via2 = float(H.lib_call(Metric.ASSD, ref2, pred2, label, l2))
     if not (H.same_value(direct2, got, 1e-12) and H.same_value(via2, got, 1e-12)):
@@ -229,6 +233,8 @@ def check(case, stats):
     dt = case["dtype"]
     if label is not None and dt == "bool":
         label = None
+    if label is not None and label > 60000:
+        dt = "int64"  # labels far from zero need a wide dtype
     mult = 1 if label is None else label
     ref = gen.with_layout((ref0 * mult).astype(dt), case["layout"])
     pred = gen.with_layout((pred0 * mult).astype(dt), case["layout"])
